@@ -111,7 +111,14 @@ def check_property(pid, tier='quick', seed=0, out=sys.stdout, quiet_summary=Fals
         wchanged = sorted(k for k in set(R.watch) | set(reg.get('watch', {})) if R.watch.get(k) != reg.get('watch', {}).get(k))
         if wchanged:
             # the unit relies on an ASSUMED contract for these functions; the assumption was made for the text that was reviewed
-            undecided.append((R.name, 'a function whose contract is only assumed has changed since registration (its assumed contract is no longer backed by review): ' + ', '.join(wchanged)))
+            unc = {f'{a}:{b}' for (a, b) in getattr(unit, 'UNCOVERED', [])}
+            w1 = [k for k in wchanged if k not in unc]; w2 = [k for k in wchanged if k in unc]
+            msg = []
+            if w1:
+                msg.append('a function whose contract is only assumed has changed since registration (its assumed contract is no longer backed by review): ' + ', '.join(w1))
+            if w2:
+                msg.append('a function that belongs to the mechanism of the property but is outside every contract has changed since registration; the check cannot decide the property for the changed text: ' + ', '.join(w2))
+            undecided.append((R.name, '; '.join(msg)))
             continue
         # obligations relevant to this property
         rel = []
